@@ -12,7 +12,7 @@ RULE = ("(a) responses: the real QXmppSaslClient objects run with a pinned clien
         "DIGEST-MD5 over the same credentials x 3 realms (absent, plain, with quote/backslash) x 2 nonces; PLAIN; HT-SHA-256/512/SHA3-512 "
         "over 3 tokens; every emitted message is recomputed by an independent Python oracle (hashlib/hmac, written from RFC 5802/7677, "
         "2831, 4616, XEP-0484; DIGEST-MD5 compared field by field through a tolerant RFC 2831 reader). (b) refusals: every sequence of "
-        "server messages up to depth 3 (quick) / 4 (thorough) over a 20-message alphabet (honest/invalid server-first, right/wrong/"
+        "server messages up to depth 3 (quick) / 5 (thorough) over a 20-message alphabet (honest/invalid server-first, right/wrong/"
         "truncated/empty/missing server signature, <success/> empty or carrying a right/wrong server-final, extra challenge, failure) is "
         "played against the real SaslManager and Sasl2Manager for SCRAM-SHA-1 and -256; an independent SCRAM server model decides: "
         "Success only after a correct server signature, every invalid message ends in an authentication error and no proof is sent "
